@@ -63,6 +63,8 @@ static J gen_history(Chooser &ch, bool two_d)
       s["w"] = static_cast<int>(wi);
       J q = g::gen_query(ch, w, (!w.feats.empty() && ch.chance(80)) ? &w.feats[ch.index(w.feats.size())] : nullptr);
       if (ch.chance(10)) q = g::make_query(w.fr, q.at("nat")[0].num(), q.at("nat")[1].num(), 0.0);
+      // 8%: just above or well above the surface (a negative depth is not depth zero: nothing is forced there)
+      else if (ch.chance(8)) q = g::make_query(w.fr, q.at("nat")[0].num(), q.at("nat")[1].num(), ch.pick<double>({-1e-9, -1.0, -250.0, -5e3}));
       const bool use2d = two_d && w.root.has("cross section") && ch.chance(75);
       s["dim"] = use2d ? 2 : 3;
       if (use2d)
